@@ -185,3 +185,65 @@ func harnessC06() {
 }
 
 var sbroker *MuxBroker // the plugin-side broker, as handed to Plugin.Server by the real dispenser
+
+// harnessC06afterTimeout: the same routing after an unrelated Accept, on either end, found no dial and timed out.
+func harnessC06afterTimeout() {
+	a, b := &vConn{acceptQ: make(chan *yamux.Stream, 16)}, &vConn{acceptQ: make(chan *yamux.Stream, 16)}
+	a.peer, b.peer = b, a
+	ps := map[string]Plugin{"test": &vPlug{}}
+	server := &RPCServer{Plugins: ps, Stdout: &vConn{}, Stderr: &vConn{}}
+	go func() { vDaemon(); server.ServeConn(b) }()
+	client, err := NewRPCClient(a, ps)
+	vAssume(err == nil)
+	vSleepUntil(1)
+	r1, e1 := client.Dispense("test")
+	vAssert(e1 == nil, "C06: Dispense succeeds")
+	sb := sbroker
+
+	lonely := client.broker
+	if vChoice(2) == 1 {
+		lonely = sb
+		vCover("lonely-on-plugin")
+	} else {
+		vCover("lonely-on-host")
+	}
+	id0 := vNondetU32("id0")
+	vAssume(id0 > 100)
+	var e0 error
+	back := make(chan struct{}, 1)
+	go func() { _, e0 = lonely.Accept(id0); back <- struct{}{} }()
+	vSleepUntil(8 * sec)
+	<-back
+	vAssert(e0 != nil, "C09: an Accept nobody dials returns an error")
+	vCover("timed-out")
+
+	// afterwards: a Dispense and a raw pair on another ID, in either direction, accept or dial first
+	r2, e2 := client.Dispense("test")
+	vAssert(e2 == nil, "C06: Dispense succeeds after an unrelated Accept timed out")
+	var t1, t2 int
+	vAssert(r1.(*rpc.Client).Call("Plugin.Whoami", 0, &t1) == nil && r2.(*rpc.Client).Call("Plugin.Whoami", 0, &t2) == nil, "C06: calls on the dispensed clients succeed")
+	vAssert(t1 == 1 && t2 == 2, "C06: each Dispense reaches the server object created for that dispense")
+	id1 := vNondetU32("id1")
+	vAssume(id1 > 100 && id1 != id0)
+	acc, dia := client.broker, sb
+	if vChoice(2) == 1 {
+		acc, dia = sb, client.broker
+	}
+	gap := vNondetTime("gap")
+	vAssume(gap >= 0 && gap < 5*sec)
+	tA, tD := 10*sec, 10*sec+gap
+	if vChoice(2) == 1 {
+		tA, tD = 10*sec+gap, 10*sec
+	}
+	var c1, d1 net.Conn
+	var ea, ed error
+	done := make(chan struct{}, 2)
+	go func() { vSleepUntil(tA); c1, ea = acc.Accept(id1); done <- struct{}{} }()
+	go func() { vSleepUntil(tD); d1, ed = dia.Dial(id1); done <- struct{}{} }()
+	<-done
+	<-done
+	vAssert(ea == nil && ed == nil, "C06: accept and dial within the pending window both succeed after an unrelated Accept timed out")
+	vAssert(strmG[d1.(*yamux.Stream)].peer == c1.(*yamux.Stream), "C06: Dial(id1) is connected to Accept(id1)")
+	vCover("routed")
+	vDone()
+}
